@@ -24,7 +24,7 @@ RULE = (
     "(n >= 4 or TS1 or calibrated); distinct by JSON hash"
 )
 ASSUMPTIONS = ["jacobian_materialize() handler (exact Jacobians); IWP priors; x64"]
-REQUIRED_LABELS = ["fact:dense", "fact:isotropic", "fact:blockdiag", "lin:ts1", "calib:mle", "calib:dynamic", "n>=6", "prior:iwp"]
+REQUIRED_LABELS = ["fact:dense", "fact:isotropic", "fact:blockdiag", "lin:ts1", "lin:implicit", "calib:mle", "calib:dynamic", "n>=6", "prior:iwp"]
 MAX_INCONCLUSIVE = 0.4
 
 
@@ -35,6 +35,11 @@ def strategy(ctx):
     # exponential priors (integrated Ornstein-Uhlenbeck, Matern) exist for the dense model
     cfg = ssmcase.draw_structure(rng, facts=("dense",), nmax=4, dmax=2, inits=("exact", "inexact"), steps=(2, 4))
     cfg["prior"] = str(rng.choice(["ou", "matern"]))
+    cfg["cinit"] = False
+    pool.append(cfg)
+    # implicit residuals r(u, u', [u''], t) = 0 whose Jacobian w.r.t. the highest derivative is not the identity
+    # (constraint_residual with residual_velocity / residual_acceleration)
+    cfg = ssmcase.draw_structure(rng, nmax=6, steps=(2, 8), lins=("implicit",))
     cfg["cinit"] = False
     pool.append(cfg)
     return ssmcase.strategy_from_pool(pool)
